@@ -84,6 +84,9 @@ pub fn run_exchanges(cfgs: Vec<Arc<ExchCfg>>, lim: &Limits, require_single_outco
                         replay: json!({"exchange": describe(cfg), "cfg_index": i, "trace": trace_json(&b.0), "other_trace": trace_json(&a.0), "expect_outcome": a.2}),
                     });
                 }
+                if i % 41 == 0 && !ex.cap_hit {
+                    crate::sr::cross_check(Exch::new(cfg.clone()).unwrap(), ex.states, "exchange graph", &mut rep);
+                }
                 match validate_traces(|| Exch::new(cfg.clone()).unwrap(), &ex) {
                     Ok(n) => rep.traces_validated += n,
                     Err(e) => {
